@@ -222,6 +222,12 @@ def trig_op(w, op):
         return safe(lambda: sorted(t.get_valid_conditions().keys()) and None)
     if op == 8:
         return safe(lambda: t.purge())
+    if op == 9:
+        return safe(lambda: t.claim_trigger_run("run-B"))                       # live claim (60 s) on the id that op 1 claims with an expired one
+    if op == 10:
+        return safe(lambda: t.claim_trigger_execution("trig-1", "vc-1", expiration_seconds=0))
+    if op == 11:
+        return safe(lambda: t.claim_trigger_execution("trig-1", "vc-1"))
     return None
 
 def trig_readout(w):
@@ -261,7 +267,7 @@ def wg_readout(w):
     return {"blocking": w.names(o.get_blocking_invocations(10)), "n1": len(list(o.get_blocking_invocations(1))),
             "status": [o.get_invocation_status(i.invocation_id).value for i in w.invs]}
 
-ALPHABETS = {"orch": (orch_op, orch_readout, 14), "store": (store_op, store_readout, 12), "trig": (trig_op, trig_readout, 9), "wg": (wg_op, wg_readout, 12)}
+ALPHABETS = {"orch": (orch_op, orch_readout, 14), "store": (store_op, store_readout, 12), "trig": (trig_op, trig_readout, 12), "wg": (wg_op, wg_readout, 12)}
 
 def differential(comp, ops):
     global LAST_DETAIL
@@ -338,7 +344,7 @@ def run(ctx: Ctx) -> None:
     thorough = ctx.tier == "thorough"
     src = SRC
     conds = []
-    for comp, n in (("orch", 14), ("store", 12), ("trig", 9), ("wg", 12)):
+    for comp, n in (("orch", 14), ("store", 12), ("trig", 12), ("wg", 12)):
         for a in range(n):
             f = F.replace("__COMP__", comp).replace("__A__", str(a)).replace("__N__", str(n))
             if thorough:
@@ -352,8 +358,8 @@ def run(ctx: Ctx) -> None:
     ctx.ch_batch("c16", src, conds)
     ctx.functions_encoded += ["every public method of Mem/SQLite Orchestrator used by the alphabet (register, status change, queries by task/call/arguments/status, pagination, counts, filters, retries, heartbeats, active runners, recovery scans, auto-purge, wait graph)",
                               "Mem/SQLite StateBackend (results, exceptions, history, workflow data, invocation lookup, purge), Broker, ClientDataStore",
-                              "Mem/SQLite Trigger store (claim_trigger_run, store/get_last_cron_execution, emit_event, valid conditions, purge)"]
-    ctx.bounds = {"sequences": f"{4 if thorough else 3} operations per component alphabet (orchestrator 14 letters, stores 12, trigger store 9, wait graph 12), split by first letter",
+                              "Mem/SQLite Trigger store (claim_trigger_run, claim_trigger_execution (expired and live claims), store/get_last_cron_execution, emit_event, valid conditions, purge)"]
+    ctx.bounds = {"sequences": f"{4 if thorough else 3} operations per component alphabet (orchestrator 14 letters, stores 12, trigger store 12, wait graph 12), split by first letter",
                   "universe": "2 tasks, up to 3-4 invocations, 2 runners, controlled clock (advance 61 s; heartbeat timeout 60 s, pending limit 30 s, purge age 0)"}
     ctx.stubs += ["counter clock in both orchestrator modules", "sync history threads", "deterministic uuid4"]
     ctx.assumptions += ["'seeded random sequences of a few hundred operations' from the property text are sampling and are not part of this family's claim",
